@@ -6,7 +6,9 @@ import (
 	"strings"
 
 	"github.com/corazawaf/coraza/v3/experimental/plugins/plugintypes"
+	"github.com/corazawaf/coraza/v3/internal/corazawaf"
 	"github.com/corazawaf/coraza/v3/internal/operators"
+	"github.com/corazawaf/coraza/v3/internal/seclang"
 
 	"github.com/corazawaf/coraza/v3/experimental/plugins/macro"
 	"github.com/corazawaf/coraza/v3/verifharness/vh"
@@ -159,6 +161,8 @@ func (r *runner) generate() {
 
 	// ---------------- @pm ----------------
 	r.genPm(rng)
+
+	r.genDatasetWAFs(rng)
 
 	// ---------------- @validateByteRange ----------------
 	r.genVbr(rng)
@@ -666,4 +670,70 @@ func (r *runner) genRules(rng *rand.Rand) {
 
 func isHex(c byte) bool {
 	return (c >= '0' && c <= '9') || (c >= 'a' && c <= 'f') || (c >= 'A' && c <= 'F')
+}
+
+// genDatasetWAFs: @pmFromDataset through real WAFs that live in the same process and use the same
+// data-set names with different contents (two WAFs; one configuration that declares the data set
+// twice); every rule must decide membership of ITS OWN phrase list (implementation-side oracle).
+func (r *runner) genDatasetWAFs(rng *rand.Rand) {
+	mkList := func() []string {
+		n := 1 + rng.Intn(3)
+		ps := make([]string, n)
+		for i := range ps {
+			ps[i] = randFrom(rng, "abcdABCD", 2+rng.Intn(3))
+		}
+		return ps
+	}
+	want := func(ps []string, v string) bool {
+		lv := asciiLower(v)
+		for _, p := range ps {
+			if strings.Contains(lv, asciiLower(p)) {
+				return true
+			}
+		}
+		return false
+	}
+	conf := func(lists ...[]string) string {
+		var sb strings.Builder
+		for i, ps := range lists {
+			fmt.Fprintf(&sb, "SecDataset ds `\n%s\n`\n", strings.Join(ps, "\n"))
+			fmt.Fprintf(&sb, "SecRule REQUEST_HEADERS:x \"@pmFromDataset ds\" \"id:%d,phase:1,pass,nolog,setvar:tx.m%d=1\"\n", i+1, i+1)
+		}
+		return sb.String()
+	}
+	probe := func(waf *corazawaf.WAF, nRules int, v string) []bool {
+		tx := waf.NewTransaction()
+		defer tx.Close()
+		tx.AddRequestHeader("x", v)
+		tx.ProcessRequestHeaders()
+		res := make([]bool, nRules)
+		for i := range res {
+			res[i] = len(tx.Variables().TX().Get(fmt.Sprintf("m%d", i+1))) > 0
+		}
+		return res
+	}
+	for it := 0; it < r.cfg.Pick(40, 600); it++ {
+		a, b := mkList(), mkList()
+		w1, w2, w3 := corazawaf.NewWAF(), corazawaf.NewWAF(), corazawaf.NewWAF()
+		if seclang.NewParser(w1).FromString(conf(a)) != nil || seclang.NewParser(w2).FromString(conf(b)) != nil ||
+			seclang.NewParser(w3).FromString(conf(a, b)) != nil {
+			r.fail("c15-pmds-waf", "SecDataset + @pmFromDataset configuration does not compile", map[string]any{"a": a, "b": b})
+			continue
+		}
+		vals := []string{a[0], b[0], "x" + strings.ToUpper(b[len(b)-1]) + "y", randFrom(rng, "abcdABCD", 6), ""}
+		for _, v := range vals {
+			r.oracleN += 3
+			r.res.InputDistribution["pmds_waf"]++
+			c := map[string]any{"kind": "pmds-waf", "first_list": a, "second_list": b, "value_hex": hx(v)}
+			if got := probe(w1, 1, v); got[0] != want(a, v) {
+				r.fail("c15-pmds-waf", "@pmFromDataset in the first WAF does not decide membership of its own data set", c)
+			}
+			if got := probe(w2, 1, v); got[0] != want(b, v) {
+				r.fail("c15-pmds-waf", "@pmFromDataset in a second WAF (same data-set name, other content) does not decide membership of its own data set", c)
+			}
+			if got := probe(w3, 2, v); got[0] != want(a, v) || got[1] != want(b, v) {
+				r.fail("c15-pmds-waf", "@pmFromDataset after SecDataset was declared again does not decide membership of the data set current at its rule", c)
+			}
+		}
+	}
 }
